@@ -50,6 +50,10 @@ def cases(tier, seed):
     for p in phys:
         for kk, outp, probes, prog in itertools.product(("1", "2", "3", "5", "N", "N+1"), ("temp", "file"), (0, 2), ("bar", "every", "never")):
             out.append(dict(fam="obs", phys=p, k=kk, out=outp, probes=probes, prog=prog))
+    if tier == "quick":
+        # the screened problem with a reduced set of recording configurations
+        for kk, outp, probes, prog in itertools.product(("1", "3", "N"), ("temp", "file"), (0, 2), ("bar", "never")):
+            out.append(dict(fam="obs", phys="screen", k=kk, out=outp, probes=probes, prog=prog))
     for N in (8,) if tier == "quick" else (8, 11):
         for n1 in range(1, N):
             for k in (1, 2, 3):
